@@ -267,21 +267,20 @@ Section WithMai.
       match key with
       | KInt z =>
         if (0 <=? z) && (z <? mai) then
-          if z <=? len (arr t) then
-            match scan_from (skipn (Z.to_nat z) (arr t)) z with
-            | Some (i, v) => NKV (KInt i) v
-            | None =>
-              (* index == len(tb.array) *)
-              if is_empty (dict t) && is_empty (strdict t) then NEnd
-              else
-                match keys t with
-                | [] => NPanic                       (* tb.keys[0] out of range *)
-                | k0 :: _ =>
-                  let v := RawGetH t k0 in
-                  if is_nil v then next_keys t k0 else NKV k0 v
-                end
-            end
-          else next_keys t key                       (* index > len: falls through (array non-nil) *)
+          (* the loop runs only while index < len(tb.array); afterwards index >= len(tb.array)
+             (fix 2ba8ccb: also when the array part shrank below the cursor) *)
+          match (if z <=? len (arr t) then scan_from (skipn (Z.to_nat z) (arr t)) z else None) with
+          | Some (i, v) => NKV (KInt i) v
+          | None =>
+            if is_empty (dict t) && is_empty (strdict t) then NEnd
+            else
+              match keys t with
+              | [] => NPanic                       (* tb.keys[0] out of range *)
+              | k0 :: _ =>
+                let v := RawGetH t k0 in
+                if is_nil v then next_keys t k0 else NKV k0 v
+              end
+          end
         else next_keys t key
       | _ => next_keys t key
       end
